@@ -138,6 +138,10 @@ def layer_cases(draw, names=None):
 def check_case(case, rec=None):
     from vf.checks import c02
 
+    if rec is not None and rec.evaluations % 8 == 0:
+        # the naive layer references must themselves be differentiated correctly by complex-step
+        c02.ref_selftest(case)
+        rec.label("ref_selftest")
     return c02.check_case(case, rec)
 
 
